@@ -929,6 +929,22 @@ class HTTPResponse(BaseHTTPResponse):
                     # raised during streaming, so all calls with incorrect
                     # Content-Length are caught.
                     raise IncompleteRead(self._fp_bytes_read, self.length_remaining)
+            elif (
+                amt is None
+                and not read1
+                and not fp_closed
+                and self.enforce_content_length
+                and self.length_remaining is not None
+                and len(data) < self.length_remaining
+            ):
+                # A read without a limit only returns at the end of the stream:
+                # what is still missing from the announced length cannot arrive
+                # any more (httplib does not notice when it could not make sense
+                # of a Content-Length that we accept, e.g. "42, 42").
+                self._fp.close()
+                raise IncompleteRead(
+                    self._fp_bytes_read + len(data), self.length_remaining - len(data)
+                )
             elif read1 and (
                 (amt != 0 and not data) or self.length_remaining == len(data)
             ):
